@@ -21,7 +21,7 @@ ENCODED = ["twisted.protocols.basic:LineReceiver.dataReceived", "twisted.protoco
            "twisted.protocols.basic:NetstringReceiver", "twisted.protocols.basic:_formatNetstring",
            "twisted.protocols.basic:IntNStringReceiver.dataReceived",
            "twisted.protocols.basic:IntNStringReceiver.sendString"]
-BOUNDS = {"quick": {"n": 4, "ns": 3, "ni": 3}, "thorough": {"n": 6, "ns": 4, "ni": 4}}
+BOUNDS = {"quick": {"n": 4, "ns": 2, "ni": 3}, "thorough": {"n": 6, "ns": 5, "ni": 4}}
 B = {}
 M = 2   # MAX_LENGTH used throughout
 BOUNDS_TEXT = ("MAX_LENGTH=2.  Line receivers: every byte stream of <= n bytes (n=4 quick, 6 thorough), "
@@ -101,6 +101,40 @@ class FakeTransport:
 
     def stopProducing(self):
         pass
+
+
+def _teq(x, y):
+    """text equality that is robust against a CrossHair 0.0.110 defect: a symbolic str backed by a
+    SequenceConcatenation (result of + / join) compared with one backed by the argument array can
+    return a concrete False although both are equal (the reverse order is right).  Every check in this
+    file requires equality for success, so the defect could only cause false alarms, never a false
+    'confirmed'; this helper removes the false alarms."""
+    if isinstance(x, int) or isinstance(y, int):
+        return x == y
+    if x == y:
+        return True
+    if y == x:
+        return True
+    n = len(x)
+    if n != len(y):
+        return False
+    for i in range(n):
+        if x[i] != y[i]:
+            return False
+    return True
+
+
+def _eveq(a, c):
+    """equality of two event lists [(kind,), (kind, text-or-int), ...]"""
+    if len(a) != len(c):
+        return False
+    for i in range(len(a)):
+        e, f = a[i], c[i]
+        if e[0] != f[0] or len(e) != len(f):
+            return False
+        if len(e) > 1 and not _teq(e[1], f[1]):
+            return False
+    return True
 
 
 def _upto_lose(ev):
@@ -268,7 +302,7 @@ def _check_lines(s, k, d, act, lineonly):
     cover()
     a, w = _norm(ev_split), _norm(ev_whole)
     # (i) split and unsplit delivery give the same events up to the first close request
-    if a != w:
+    if not _eveq(a, w):
         return False
     # (ii) both equal the reference framing
     ref, tailstate, excstart = _ref_lines(s, d, act)
@@ -277,7 +311,7 @@ def _check_lines(s, k, d, act, lineonly):
     elif tailstate == "may":
         if len(w) == len(ref) + 1 and w[-1] == ("exc",):
             ref = ref + [("exc",)]
-    if w != ref:
+    if not _eveq(w, ref):
         return False
     # (iii) is implied by (ii): the reference delivers exactly the lines of <= M bytes and rejects at the
     # first longer one.  Additionally: the oversize callback gets stream data starting at that line
@@ -336,7 +370,7 @@ def sendline(line: str, dl: int, which: int) -> bool:
     cover()
     if d in line or (len(d) == 2 and len(line) > 0 and line[len(line) - 1] == d[0]):
         return True     # a line containing (or ending in the start of) the delimiter is not a line
-    return ev == [("line", line)]
+    return _eveq(ev, [("line", line)])
 
 
 # ------------------------------------------------------------------------------------------------
@@ -411,30 +445,72 @@ def _run_net(s, k):
     return ev, p
 
 
+def _check_net(s, k):
+    """the delivery split at k (k == 0: unsplit) gives exactly the reference framing; since the
+    reference is a function of the stream alone, all splits and the unsplit delivery then agree (i).
+    Only where the reference leaves the moment of rejection open ('may') the unsplit run is made
+    too and compared."""
+    ev, _p = _run_net(s, k)
+    api.obs(ev)
+    cover()
+    ref, end = _ref_netstring(s)
+    lost = len(ev) > 0 and ev[-1] == ("lose",)
+    if not _eveq(_upto_lose(ev), ref):
+        return False
+    if end == "err":
+        return lost
+    if end == "ok":
+        return not lost
+    ev_whole, _p = _run_net(s, 0)
+    return _eveq(ev, ev_whole)
+
+
 def netstring(ld: str, sep: str, rest: str, split: int) -> bool:
     """
-    pre: 1 <= len(ld) <= 2 and len(sep) == 1 and len(rest) <= B['ns']
+    pre: 1 <= len(ld) <= 2 and len(sep) == 1 and len(ld) + len(rest) <= B['ns']
     pre: all(ord(c) < 256 for c in ld + sep + rest)
     pre: 0 <= split <= len(ld) + 1 + len(rest)
     post: _
     """
     s = _conc_digits(ld) + sep + rest
     k = _split_cases(len(s), split)
-    ev_split, _p = _run_net(s, k)
-    ev_whole, _p = _run_net(s, 0)
-    api.obs((ev_split, ev_whole))
+    return _check_net(s, k)
+
+
+def netshape(v: int, pay: str, c: str, e: str, split: int) -> bool:
+    """
+    pre: 0 <= v <= M + 1 and len(pay) == v and len(c) == 1 and len(e) <= 1
+    pre: all(ord(x) < 256 for x in pay + c + e)
+    pre: 0 <= split <= v + 3 + len(e)
+    post: _
+    """
+    n = _menu(M + 1, v)
+    s = str(n) + ":" + pay + c + e
+    k = _split_cases(len(s), split)
+    if not _check_net(s, k):
+        return False
+    # (iii) spelled out for this shape: delivered iff it fits and is terminated by a comma
+    ev, _p = _run_net(s, k)
+    if n <= M and c == ",":
+        return len(ev) >= 1 and _eveq(ev[:1], [("str", pay)])
+    return ev == [("lose",)]
+
+
+def nettwo(v1: int, v2: int, p1: str, p2: str, split: int) -> bool:
+    """
+    pre: 0 <= v1 <= M and 0 <= v2 <= M and len(p1) == v1 and len(p2) == v2
+    pre: all(ord(x) < 256 for x in p1 + p2)
+    pre: 0 <= split <= v1 + v2 + 6
+    post: _
+    """
+    n1 = _menu(M, v1)
+    n2 = _menu(M, v2)
+    s = str(n1) + ":" + p1 + "," + str(n2) + ":" + p2 + ","
+    k = _split_cases(len(s), split)
+    ev, _p = _run_net(s, k)
+    api.obs(ev)
     cover()
-    if ev_split != ev_whole:
-        return False
-    ref, end = _ref_netstring(s)
-    lost = len(ev_whole) > 0 and ev_whole[-1] == ("lose",)
-    if _upto_lose(ev_whole) != ref:
-        return False
-    if end == "err":
-        return lost
-    if end == "ok":
-        return not lost
-    return True
+    return _eveq(ev, [("str", p1), ("str", p2)])
 
 
 def netsend(data: str, extra: str, split: int) -> bool:
@@ -453,13 +529,11 @@ def netsend(data: str, extra: str, split: int) -> bool:
     ev, _p = _run_net(s, k)
     api.obs((wire, ev))
     cover()
-    if wire != str(_menu(M + 1, len(data))) + ":" + data + ",":
+    if not _teq(wire, str(_menu(M + 1, len(data))) + ":" + data + ","):
         return False
     if len(data) > M:
         return ev == [("lose",)]            # longer than MAX_LENGTH: never delivered
-    if len(ev) == 0 or ev[0] != ("str", data):
-        return False
-    return True
+    return len(ev) > 0 and _eveq(ev[:1], [("str", data)])
 
 
 # ------------------------------------------------------------------------------------------------
@@ -494,20 +568,22 @@ def _conc_prefixes(s, pl):
     n = len(out)
     pos = 0
     while pos + pl <= n:
-        v = 0
-        big = False
-        for j in range(pos, pos + pl):
-            ch = out[j]
-            hit = False
+        v = -1
+        for j in range(pos, pos + pl - 1):
+            if out[j] == "\x00":
+                out[j] = "\x00"
+            else:
+                v = M + 1       # a non-zero high byte: > MAX_LENGTH whatever follows
+                break
+        if v < 0:
+            j = pos + pl - 1
+            v = M + 1
             for c in range(M + 1):
-                if ch == chr(c):
+                if out[j] == chr(c):
                     out[j] = chr(c)
-                    v = v * 256 + c
-                    hit = True
+                    v = c
                     break
-            if not hit:
-                big = True
-        if big or v > M:
+        if v > M:
             break
         pos = pos + pl + v
     return "".join(out)
@@ -561,10 +637,10 @@ def intn(s: str, split: int, pl: int, act: int) -> bool:
     ev_whole, _p = _run_intn(s, 0, pl, a)
     api.obs((ev_split, ev_whole))
     cover()
-    if ev_split != ev_whole:
+    if not _eveq(ev_split, ev_whole):
         return False
     ref = _ref_intn(s, pl)
-    if _upto_lose(ev_whole) != ref:
+    if not _eveq(_upto_lose(ev_whole), ref):
         return False
     lost = len(ev_whole) > 0 and ev_whole[-1] == ("lose",)
     return lost == (len(ref) > 0 and ref[-1][0] == "exc")
@@ -586,13 +662,11 @@ def intnsend(data: str, extra: str, split: int, pl: int) -> bool:
     ev, _p = _run_intn(s, k, pl, 0)
     api.obs((wire, ev))
     cover()
-    if wire != "\x00" * (pl - 1) + chr(len(data)) + data:
+    if not _teq(wire, "\x00" * (pl - 1) + chr(_menu(M + 1, len(data))) + data):
         return False
     if len(data) > M:
-        return ev == [("exc", len(data)), ("lose",)]
-    if len(ev) == 0 or ev[0] != ("str", data):
-        return False
-    return True
+        return _eveq(ev, [("exc", len(data)), ("lose",)])
+    return len(ev) > 0 and _eveq(ev[:1], [("str", data)])
 
 
 def _line_shards(tier):
@@ -614,8 +688,10 @@ HARNESSES = [
       timeout={"quick": 100, "thorough": 1500}),
     H(sendline, timeout={"quick": 60, "thorough": 300}),
     H(netstring, shards=lambda tier: [("len(ld) == %d" % a, "len(rest) == %d" % r)
-                                      for a in (1, 2) for r in range(0, BOUNDS[tier]["ns"] + 1)],
+                                      for a in (1, 2) for r in range(0, BOUNDS[tier]["ns"] - a + 1)],
       timeout={"quick": 100, "thorough": 1500}),
+    H(netshape, shards=[("v == %d" % v,) for v in range(0, M + 2)], timeout={"quick": 100, "thorough": 600}),
+    H(nettwo, shards=[("v1 == %d" % v,) for v in range(0, M + 1)], timeout={"quick": 100, "thorough": 600}),
     H(netsend, shards=[("len(data) == %d" % n,) for n in range(0, M + 2)], timeout={"quick": 60, "thorough": 300}),
     H(intn, shards=lambda tier: [("pl == %d" % pl, "len(s) == %d" % n)
                                  for pl in (1, 2, 4) for n in range(0, pl + BOUNDS[tier]["ni"] + 1)],
@@ -638,6 +714,8 @@ VECTORS = {
     "netstring": [("2", ":", "ab,", 3), ("a", "b", "c", 1), ("2", ":", "abc", 2), ("0", "0", ":,", 1),
                   ("0", ":", ",1:", 4), ("1", ":", "x,0:,", 5), ("3", ":", "abc,", 0), ("12", ":", "", 1),
                   ("1", ",", "a,", 2), ("2", ":", "a", 3), ("99", "9", "999", 2), ("0", ":", ",,", 3)],
+    "netshape": [(2, "ab", ",", "1", 3), (3, "abc", ",", "", 2), (1, "x", "y", "z", 4), (0, "", ",", ":", 0)],
+    "nettwo": [(1, 2, "a", "bc", 5), (0, 0, "", "", 3), (2, 1, ",,", ":", 9)],
     "netsend": [("ab", "", 2), ("", "x", 0), ("abc", "", 1), (",:", "1", 5), ("\xff", "", 3)],
     "intn": [("\x01a\x02bc", 2, 1, 0), ("\x00\x01a\x00\x00", 3, 2, 1), ("\x00\x00\x00\x02ub", 4, 4, 0),
              ("\x10\x00\x00\x00aaaaaa", 2, 4, 0), ("\x00\x00\x00", 1, 4, 0), ("\x03abc", 1, 1, 0),
